@@ -23,8 +23,8 @@ for p in props:
         'level_claimed': {'category': 'proof',
                           'text': sp.get('level_text', 'Contract-based deductive verification of the real functions: sidecar pre/postconditions, loop invariants with ghost witnesses and object invariants; every obligation generated from the current /repo AST is discharged by z3 (cvc5 for z3 unknowns; cvc5 re-checks all in the thorough tier) for all inputs, lengths and iterations. A run in which an obligation is not discharged writes level "other" and says so.'),
                           'design_ref': sp.get('design_ref', 'DESIGN.md section 7, ' + pid)},
-        'level_note': sp.get('level_note', 'Trusted: the pyvc VC generator (Python subset semantics), z3/cvc5, the library models listed in the evidence file (assumed contracts on dependencies), the sidecar contracts being a faithful reading of the property statement. Bounded native stand-ins are labelled bounded and never counted as discharged.'),
-        'technique': sp.get('technique', 'contract-based deductive verification: ast->VC generation over the real source (pyvc), z3/cvc5 discharge; native bounded stand-in only to realise counterexamples'),
+        'level_note': sp.get('level_note', 'Trusted: the pyvc VC generator (Python subset semantics), z3/cvc5, the library models listed in the evidence file (assumed contracts on dependencies), the sidecar contracts being a faithful reading of the property statement. Bounded native stand-ins (of this property and of the properties it depends on) run on every check, are labelled bounded and never counted as discharged.'),
+        'technique': sp.get('technique', 'contract-based deductive verification: ast->VC generation over the real source (pyvc), obligations discharged by z3/cvc5; the deciding step is the solver accepting every obligation; a bounded native stand-in (labelled bounded, never counted as discharged) runs alongside to realise counterexamples and to decide where an obligation or the frame lint is left open'),
     })
 m = {
     'version': 1,
